@@ -207,6 +207,8 @@ def allowed(req, mode):
                   "uiHeartbeat": {"command", "version", "udValue"}}
     if cmd in documented and set(req) - documented[cmd]:
         amb = True
+    if mode == "v1" and cmd == "sign" and "auth" in req:
+        amb = True      # docs/protocol-v1.md knows no such member
     if cmd == "sign" and type(req.get("auth")) is dict and \
             set(req["auth"]) - {"receipt", "receipt_merkle_proof"}:
         amb = True
@@ -338,12 +340,16 @@ def _plausible_block(x):
     # count top-level items
     hdr = 1 if b[0] <= 0xf7 else 1 + (b[0] - 0xf7)
     pos, n = hdr, 0
+    if not _canonical_prefix(b, 0):
+        return False           # a decoder may or may not take a non-minimal encoding
     while pos < len(b):
         t = rlp_total_len(b[pos:])
         if t is None or pos + t > len(b):
             return False
         if b[pos] >= 0xc0:
             return False       # nested list: rlp-decodable, but not a header; docs silent
+        if not _canonical_prefix(b, pos):
+            return False
         pos += t
         n += 1
     if n not in (17, 18, 19, 20):
@@ -351,47 +357,19 @@ def _plausible_block(x):
     return len(b) - hdr < 65536
 
 
-def _clearly_not_a_header(x):
-    """A hex string that no reading of the docs makes a block header: not one RLP list, or a
-    list whose number of items is not 17..20 (lists with nested items stay undecided)."""
-    from .device import rlp_total_len
-    if not is_hex(x) or len(x) == 0:
-        return False
-    b = bytes.fromhex(x)
-    if b[0] < 0xc0:
+def _canonical_prefix(b, pos):
+    """The RLP item at pos uses the shortest encoding of its length (and a single byte below
+    0x80 stands for itself)."""
+    p = b[pos]
+    if p < 0x80 or p == 0x80 or p == 0xc0:
         return True
-    t = rlp_total_len(b)
-    if t is None or t != len(b):
-        return True
-    hdr = 1 if b[0] <= 0xf7 else 1 + (b[0] - 0xf7)
-    pos, n = hdr, 0
-    while pos < len(b):
-        t = rlp_total_len(b[pos:])
-        if t is None or pos + t > len(b):
-            return True
-        if b[pos] >= 0xc0:
+    if p <= 0xb7:
+        return not (p == 0x81 and pos + 1 < len(b) and b[pos + 1] < 0x80)
+    if p <= 0xbf or p >= 0xf8:
+        n = p - (0xb7 if p <= 0xbf else 0xf7)
+        lb = b[pos + 1:pos + 1 + n]
+        if len(lb) != n or lb[0] == 0:
             return False
-        pos += t
-        n += 1
-    return n not in (17, 18, 19, 20)
+        return int.from_bytes(lb, "big") > 55
+    return True
 
-
-def only_brothers_invalid(req, mode):
-    """An advanceBlockchain request in which everything is in order except that some brother is
-    clearly not a block header. Who finds out - the manager or the device - the docs do not
-    say; what the finding is called they do: -205, invalid brothers (-204 speaks of the input
-    blocks, which are fine here)."""
-    if mode != "v5" or type(req) is not dict or req.get("command") != "advanceBlockchain":
-        return False
-    if set(req) != {"command", "version", "blocks", "brothers"} or \
-            type(req["version"]) is not int or req["version"] != 5:
-        return False
-    b, br = req["blocks"], req["brothers"]
-    if type(b) is not list or not b or not all(type(x) is str and _plausible_block(x) for x in b):
-        return False
-    if type(br) is not list or len(br) != len(b) or not all(
-            type(l_) is list and len(l_) <= 10 and all(type(x) is str and is_hex(x) and x
-                                                       for x in l_) for l_ in br):
-        return False
-    bad = [x for l_ in br for x in l_ if not _plausible_block(x)]
-    return bool(bad) and all(_clearly_not_a_header(x) for x in bad)
